@@ -1,10 +1,12 @@
 /-
 C10 — stored modules load back to what was stored (property theorems only).
 Section-level round trips hold wherever the section sits in a file (arbitrary bytes before and
-after); the directory/assembly level is tied by the correspondence run.  Exit-status logic of
+after); `file_roundtrip` composes them with the header, the CRC and the section directory into
+`nvm_deserialize (nvm_serialize m) = m` for every well-formed module.  Exit-status logic of
 the three executables is stated outright.
 -/
 import NanoVerif.Lemmas.NvmRt
+import NanoVerif.Lemmas.NvmWhole
 import NanoVerif.Model.Vm
 namespace NanoVerif.C10
 
@@ -120,6 +122,29 @@ theorem serImport_canon (i : ImportEntry) : serImport (canonImport i) = serImpor
     simp [h, importParams, h0]
     cases i.paramTypes <;> simp
 
+/-! ### the whole file -/
+
+/-- **Serialising a module and loading it back yields the same module**: for every module whose fields fit their
+    widths (file below 4 GiB), `nvm_deserialize` accepts exactly what `nvm_serialize` wrote - magic, version,
+    section count, CRC over the body, directory with running offsets, each section, "the sections end at the end
+    of the file" - and rebuilds code, function table, debug entries, imports (in canonical form), entry point and
+    flags; the string pool comes back through `nvm_add_string` -/
+theorem file_roundtrip (m : Module) (hw : m.wf) : deserialize (serialize m) = .ok (reload m) :=
+  deserialize_serialize m hw
+
+/-- ... and exactly `m` when its string pool has no duplicate entries (what `nvm_add_string` guarantees for
+    every module the compiler builds) and its import entries are in the form the loader produces -/
+theorem file_roundtrip_exact (m : Module) (hw : m.wf) (hnd : m.strings.Nodup) (hci : m.imports.map canonImport = m.imports) :
+    deserialize (serialize m) = .ok m := by
+  rw [deserialize_serialize m hw, reload_eq m hnd hci]
+
+/-- the stored file runs like the in-memory module: `execute` sees the same module -/
+theorem stored_runs_alike (m : Module) (hw : m.wf) (hnd : m.strings.Nodup) (hci : m.imports.map canonImport = m.imports)
+    (fuel : Nat) : ∀ m', deserialize (serialize m) = .ok m' → execute m' fuel = execute m fuel := by
+  intro m' h
+  rw [file_roundtrip_exact m hw hnd hci] at h
+  cases h; rfl
+
 /-! ### exit status of the three ways to run a module -/
 
 /-- what a finished run hands to its `main`: the VM result code and the value on top of the stack -/
@@ -157,5 +182,24 @@ example : ({ nameIdx := 0, arity := 2, codeOffset := 16, codeLength := 6, localC
 example : ({ moduleNameIdx := 1, functionNameIdx := 2, paramCount := 2, returnType := 1, paramTypes := none } : ImportEntry).wf := by
   unfold ImportEntry.wf; decide
 example : exitFile { result := 0, top := .int 3 } = 3 := by decide
+
+/-- a concrete module (string pool, code, one function) meets every hypothesis of `file_roundtrip_exact` -/
+def sample : Module where
+  flags := 1
+  strings := [[109, 97, 105, 110], [104, 105]]
+  code := [5, 0x3D]
+  functions := [{ nameIdx := 0, arity := 0, codeOffset := 0, codeLength := 2, localCount := 0, upvalueCount := 0 }]
+
+example : sample.wf := by
+  refine ⟨by decide, by decide, ?_, by decide +kernel⟩
+  intro s hs
+  simp only [secsOf, sample, List.length_cons, List.length_nil] at hs
+  simp at hs
+  rcases hs with rfl | rfl | rfl
+  · exact ⟨by decide, by decide⟩
+  · show (2 : Nat) < 4294967296; decide
+  · refine ⟨?_, by decide⟩
+    intro f hf; simp at hf; subst hf; unfold FnEntry.wf; decide
+example : sample.strings.Nodup ∧ sample.imports.map canonImport = sample.imports := ⟨by decide, rfl⟩
 
 end NanoVerif.C10
